@@ -7,9 +7,10 @@ from common_bounds import validate_file
 LEVEL = "model_checking"
 
 
-def mc(chk, name, R, procs, mode, expect=None):
+def mc(chk, name, R, procs, mode, expect=None, invariants=("DistinctDraws", "SameGamesForAllP"), per_episode=False):
     cfg = chk.wd / f"MC_Evaluate_{name}.cfg"
-    vlib.write_cfg(cfg, constants={"R": R, "Procs": set(procs), "Mode": mode, "StepsPerEpisode": 2}, invariants=["DistinctDraws", "SameForAllP"])
+    vlib.write_cfg(cfg, constants={"R": R, "Procs": set(procs), "Mode": mode, "StepsPerEpisode": 2, "SolverPerEpisode": per_episode},
+                   invariants=list(invariants))
     chk.model_check("MC_Evaluate", cfg.name, cfg_path=cfg, expect_violation=expect)
 
 
@@ -22,7 +23,11 @@ def run(chk, args):
                        "the model's 'worker_reset' mode (hidden game drawn in the worker from the batch's pickled generator copy) is kept as a self-test: TLC must find it violating"]
     q = chk.tier == "quick"
     mc(chk, "parent_R5", 5, {1, 2, 3}, "parent_draw")
-    mc(chk, "selftest_worker_reset", 3, {1, 2}, "worker_reset", expect="SameForAllP")
+    mc(chk, "selftest_worker_reset", 3, {1, 2}, "worker_reset", expect="SameGamesForAllP")
+    # open finding D12b on the model: the random solver's stream is copied once per chunk, so it depends on the chunking;
+    # a solver restarting its stream per episode would not
+    mc(chk, "D12b_solver_stream", 3, {1, 2}, "parent_draw", expect="SolverStreamSameForAllP", invariants=("SolverStreamSameForAllP",))
+    mc(chk, "solver_per_episode", 4, {1, 2, 3}, "parent_draw", invariants=("DistinctDraws", "SameForAllP"), per_episode=True)
     if not q:
         mc(chk, "parent_R6P4", 6, {1, 2, 3, 4}, "parent_draw")
         mc(chk, "parent_R9", 9, {2}, "parent_draw")
